@@ -533,6 +533,7 @@ class OpeningMonitor:
     def __init__(self):
         self.patch = Patch()
         self.openings = []      # (pid, site, [ints])
+        self.share_openings = {}
         self.prss = []          # (pid, kind, uci, caller)
 
     def attach(self, w, case):
@@ -543,6 +544,24 @@ class OpeningMonitor:
         def output(self, x, receivers=None, threshold=None, raw=False):
             fr = _sys._getframe(1)
             mod = fr.f_globals.get('__name__', '')
+            if mod.startswith('mpyc.'):
+                # the share every party contributes to an opening made inside the library (god's-eye: the whole
+                # polynomial that the receivers get to see), keyed by call site and program counter
+                xs = x if isinstance(x, list) else [x]
+                ints = []
+                for v in xs:
+                    v = getattr(v, 'share', v)
+                    if isinstance(v, finfields.FiniteFieldElement) and isinstance(v.value, int):
+                        ints.append(int(v.value))
+                    else:
+                        ints = None
+                        break
+                if ints:
+                    key = (f'{fr.f_code.co_name}:{fr.f_lineno}', self._program_counter[0])
+                    rec = mon.share_openings.setdefault(key, {'seq': len(mon.share_openings), 'thr': threshold,
+                                                              'order': int(type(getattr(xs[0], 'share', xs[0])).order),
+                                                              'shares': {}})
+                    rec['shares'][self.pid] = ints
             fut = orig_output(self, x, receivers, threshold, raw)
             if mod.startswith('mpyc.') and self.pid == 0:
                 site = f'{fr.f_code.co_name}:{fr.f_lineno}'
@@ -593,3 +612,4 @@ class OpeningMonitor:
         pr['prss_evaluations'] = len(self.prss)
         pr['internal_openings'] = len(self.openings)
         res.info['openings'] = self.openings
+        res.info['share_openings'] = self.share_openings
